@@ -3,6 +3,7 @@ module verif/harness
 go 1.24.7
 
 require (
+	buf.build/go/protovalidate v0.0.0
 	buf.build/gen/go/bufbuild/protovalidate/protocolbuffers/go v1.36.11-20260209202127-80ab13bee0bf.1
 	github.com/SebastienMelki/sebuf v0.0.0
 	go.yaml.in/yaml/v4 v4.0.0-rc.4
@@ -11,3 +12,5 @@ require (
 )
 
 replace github.com/SebastienMelki/sebuf => /repo
+
+replace buf.build/go/protovalidate => ../stubs/protovalidate
